@@ -5,6 +5,7 @@ Property theorems only; helper lemmas live in Lemmas/QrPlain.lean, Lemmas/SmtpSp
 import QsmtpModel.Lemmas.QrPlain
 import QsmtpModel.Lemmas.SmtpSpec
 import QsmtpModel.Lemmas.QrQpRun
+import QsmtpModel.Lemmas.QrQpLines
 
 namespace QsmtpModel.Props.C07
 open QsmtpModel QsmtpModel.Mime QsmtpModel.QrData QsmtpModel.Spec
@@ -15,11 +16,15 @@ def PlainChosen (cfg : Cfg) (m : List Byte) : Prop :=
 
 /-! ### the property at full strength (stated; proved in part, see below) -/
 
-/-- the two quoted-printable line rules a decoder cannot undo (at most 76 characters per encoded
-line, no blank at its end) for what recode_qp() sends; checked on the implementation's output on
-every run, not yet proved -/
-def qp_line_rules_full : Prop :=
-  ∀ (b : List Byte) (st : St), recodeQp b {} = .ok st → ∀ l ∈ splitCrlf [] (unDot st.out), QpLineOk l
+/-- **qp_line_rules** (as given, proved in full — Lemmas/QrQpLines.lean): the two quoted-printable
+line rules a decoder cannot undo hold for everything recode_qp() sends, for every body and whatever
+the 1280 byte staging buffer does: each line, as the receiver sees it, has at most 76 characters and
+does not end in a blank (a soft line break is made as soon as a line has more than 72 characters, a
+blank in front of a line end is always written `=20`/`=09`, and a blank in front of a soft line break
+is followed by `=` or by the next literal byte). -/
+theorem qp_line_rules_full :
+    ∀ (b : List Byte) (st : St), recodeQp b {} = .ok st → ∀ l ∈ splitCrlf [] (unDot st.out), QpLineOk l :=
+  QrData.recodeQp_lines
 
 /-- **roundtrip_single** (stage B): for a non-multipart message whatever send_data() sends decodes
 (Spec.checkRoundtrip: un-dot, remove the inserted Content-Transfer-Encoding / X-MIME-Autoconverted
